@@ -13,11 +13,19 @@
    op_ok only excludes MStoreOld, the transcription of the pinned Store (AddExitHook called with
    l.mu held), which is kept in the model to show what the repaired defect was.
 
+   The debug agent (Runtime/AgentProc.v: accept, the exit hook it registers, the guard of the packet hooks):
+   C05_agent_no_residue - for every sequence of accepts, packet-hook firings and exits of any number of
+   processes, in any order (firings after the exit included: a closing reader hands out drop notices after the
+   agent's exit hook has run; accepts after the exit included), the agent lists no terminated process and holds no
+   frames entry for one; C05_pinned_agent_keeps_frames - the unguarded hooks of the pinned tree re-create the
+   entry (the defect repaired by b2cab63).  The model is compared with a real Agent in C19's correspondence run.
+
    Not covered by these theorems (measured on the implementation by the harness, see DESIGN.md):
-   tracer tables, the debug agent's process list, goroutines. *)
+   goroutines; tracer tables across a whole workflow. *)
 From Coq Require Import List Arith NArith Bool Lia.
 From Uf Require Import Process.Local Process.LocalProofs.
 From Uf Require Import Packet.Writer Node.Tracer Node.Spec Node.Refine Node.Residue.
+From Uf Require Runtime.Agent Runtime.AgentProc.
 Import ListNotations.
 
 (* no interleaving wedges: unless every thread has returned, some thread can take a step
@@ -86,3 +94,25 @@ Theorem C05_tracer_no_residue : forall ops, disciplined ops = true ->
   t_reader (t_run ops) = [].
 Proof. exact tracer_no_residue. Qed.
 Print Assumptions C05_tracer_no_residue.
+
+(* the debug agent keeps nothing of a terminated process, whatever fires afterwards *)
+Theorem C05_agent_no_residue : forall evs p,
+  In p (AgentProc.g_dead (AgentProc.g_run true evs)) ->
+  ~ In p (AgentProc.g_procs (AgentProc.g_run true evs))
+  /\ AgentProc.fget p (AgentProc.g_frames (AgentProc.g_run true evs)) = None
+  /\ AgentProc.frames_for p (AgentProc.g_run true evs) = [].
+Proof. exact AgentProc.agent_no_residue. Qed.
+Print Assumptions C05_agent_no_residue.
+
+Theorem C05_pinned_agent_keeps_frames :
+  exists evs p, In p (AgentProc.g_dead (AgentProc.g_run false evs)) /\ AgentProc.frames_for p (AgentProc.g_run false evs) <> [].
+Proof. exact AgentProc.pinned_agent_keeps_frames. Qed.
+Print Assumptions C05_pinned_agent_keeps_frames.
+
+(* non-vacuity: a process that exits with a request unanswered; the drop notice fires after the exit *)
+Example C05_ex_agent :
+  let evs := [AgentProc.PAccept 1; AgentProc.PFire 1 (Agent.HIn (Agent.mkport 0 false 0) 7); AgentProc.PAccept 2;
+              AgentProc.PExit 1; AgentProc.PFire 1 (Agent.HOut (Agent.mkport 0 false 0) 8); AgentProc.PFire 2 (Agent.HIn (Agent.mkport 0 false 0) 9)] in
+  AgentProc.g_dead (AgentProc.g_run true evs) = [1] /\ AgentProc.g_procs (AgentProc.g_run true evs) = [2]
+  /\ length (AgentProc.frames_for 2 (AgentProc.g_run true evs)) = 1 /\ AgentProc.frames_for 1 (AgentProc.g_run true evs) = [].
+Proof. vm_compute. repeat split; reflexivity. Qed.
